@@ -165,7 +165,7 @@ pub uninterp spec fn fixture_detail(scope: FixtureScope) -> Seq<char>;
 pub open spec fn def_name_range(d: DefV) -> Range { mk_range(lsp_line(d.line), d.start_char as u32, lsp_line(d.line), d.end_char as u32) }
 pub open spec fn def_item(u: Uri, d: DefV) -> ItemV {
     ItemV { name: d.name, kind: sk_function(), tags_none: true, detail: Some(fixture_detail(d.scope)), uri: u,
-            range: point_range(lsp_line(d.line), 0), selection_range: def_name_range(d), data_none: true }
+            range: mk_range(lsp_line(d.line), 0, lsp_line(d.line), d.end_char as u32), selection_range: def_name_range(d), data_none: true }
 }
 pub open spec fn op_handle_prepare(v: NavV, uri: Uri, line: u32, ch: u32) -> Option<Seq<ItemV>> {
     match goto_or_def_target(v, uri, line, ch) {
